@@ -96,7 +96,7 @@ CHECKS = {
     technique="TLA+ relational trace specification (Trace_Rel: same meaning, same verdicts) + TLC-enumerated rewrite compositions rendered and replayed into the real pipeline"),
  "C14": dict(
     category="model_checking",
-    text="TLC enumerates Gen_Rename: identity, every transposition and every rotation of the temporary class t0-t6 and of the saved class s0-s11 (each register of a class is moved), six label renaming schemes (suffix, leading underscore, digits, long names, cyclic permutation of the existing names), at most two of the three non-trivial at once, on four base programs. Trace_Rel validates each pair: instruction sequences equal after renaming, and the multiset of (kind, instruction index, operand) of the renamed program equals the original one with registers mapped through the permutation. Seven label schemes incl. one that reverses the alphabetical order of the labels; eight abstract programs (see C13).",
+    text="TLC enumerates Gen_Rename: identity, every transposition and every rotation of the temporary class t0-t6 and of the saved class s0-s11 (each register of a class is moved), six label renaming schemes (suffix, leading underscore, digits, long names, cyclic permutation of the existing names), at most two of the three non-trivial at once, on four base programs. Trace_Rel validates each pair: instruction sequences equal after renaming, and the multiset of (kind, instruction index, operand) of the renamed program equals the original one with registers mapped through the permutation. Label schemes also include one that reverses the alphabetical order, double underscores around every name, and one label at a time called __return__ (the name the tool gives its synthetic jump to a function's exit); twelve abstract programs (see C13).",
     design_ref="DESIGN.md §5 C14",
     note="Trusted: TLC, renderer lib/absprog.py, harness projection. quick tier: 1500 renamings sampled by seed from the enumerated set; thorough: all.",
     technique="TLA+ relational trace specification (Trace_Rel: equivariance) + TLC-enumerated permutations/renamings replayed into the real pipeline"),
